@@ -127,7 +127,7 @@ func checkImplementation(
 		return append(missing, iface.Methods...)
 	}
 
-	// Create index of type's methods
+	// Create index of type's methods (unexported names are qualified by their package)
 	typeMethods := make(map[string]TypeMethod)
 	for _, method := range typeModel.Methods {
 		// Filter methods based on pointer requirement
@@ -135,18 +135,18 @@ func checkImplementation(
 			// For &Interface, we need pointer receiver methods
 			// (but value receiver methods are also OK per Go spec:
 			// method set of *T includes methods with receiver T or *T)
-			typeMethods[method.Name] = method
+			typeMethods[method.PkgPath+"."+method.Name] = method
 		} else {
 			// For Interface (no &), we need value receiver methods only
 			if !method.ReceiverIsPointer {
-				typeMethods[method.Name] = method
+				typeMethods[method.PkgPath+"."+method.Name] = method
 			}
 		}
 	}
 
 	// Check each interface method
 	for _, ifaceMethod := range iface.Methods {
-		typeMethod, exists := typeMethods[ifaceMethod.Name]
+		typeMethod, exists := typeMethods[ifaceMethod.PkgPath+"."+ifaceMethod.Name]
 		if !exists {
 			missing = append(missing, ifaceMethod)
 			continue
